@@ -337,7 +337,7 @@ def _main(a, prop, seed, env, run_dir, t0):
         print("NOTE", n)
     for k in known_lines:
         print(k)
-    if missing:
+    if missing and not violations:
         print("HARNESS-ERROR generator never produced required classes:", ", ".join(missing))
         return 2
     print(f"[{prop}] tier={a.tier} seed={seed} evaluations={evaluations} nontrivial={nt_total} "
